@@ -66,7 +66,7 @@ func (pass *PrefixEnumValues) processEnum(parentName string, def ast.Type) ast.T
 }
 
 func (pass *PrefixEnumValues) enumMemberNameFromValue(member ast.EnumValue) string {
-	if member.Type.Scalar.ScalarKind == ast.KindString && member.Value.(string) == "" {
+	if value, isString := member.Value.(string); member.Type.Scalar.ScalarKind == ast.KindString && isString && value == "" {
 		return "None"
 	}
 
